@@ -444,7 +444,7 @@ def run_job(crate, harness, skeleton, jobdir, budget):
             r.status = "proved" if not (bad or missing) else "failed"
             ends = [p for p in covers if "vk_end" in p["desc"]]
             if harness.witness and ends and r.status == "proved":
-                r.witness = all(st.get(p["name"]) in ("FAILURE", "SATISFIED") for p in ends)
+                r.witness = any(st.get(p["name"]) in ("FAILURE", "SATISFIED") for p in ends)
                 if not r.witness:
                     r.status = "error"
                     r.detail = "vacuous: end of harness unreachable"
@@ -483,7 +483,7 @@ def run_job(crate, harness, skeleton, jobdir, budget):
                 r.witness = None
                 r.detail += " witness:" + raw
             else:
-                r.witness = all(st.get(p["name"]) in ("FAILURE", "SATISFIED") for p in ends)
+                r.witness = any(st.get(p["name"]) in ("FAILURE", "SATISFIED") for p in ends)
                 if not r.witness:
                     r.status = "error"
                     r.detail = "vacuous: end of harness unreachable"
